@@ -65,5 +65,6 @@ def run(ctx):
 
 
 def replay(path):
-    print("re-run ./check C16")
-    return 2
+    from .. import core as _core
+
+    return _core.generic_replay(PROP if "PROP" in globals() else "C16", path, run, LEVEL)
